@@ -20,7 +20,24 @@ def make_case(idx):
     R = rng('c08', idx)
     kind = R.choice(['ascii', 'ltr', 'ltr'])
     mode = R.random()
-    if mode < 0.4:
+    if mode < 0.08:
+        # searches as operator motions: character-wise up to the match, line-wise when a line offset follows the closing delimiter;
+        # an offset belongs to the search it was typed with, not to later ones
+        lines = [' '.join(R.choice(['foo', 'bar', 'ab', 'x', 'World', 'a1', 'o']) for _ in range(R.randint(1, 5))) for _ in range(R.randint(3, 7))]
+        w = lambda: R.choice(['a', 'o', 'b', 'ab', 'foo', 'x', 'ar', 'Wo'])
+        srch = lambda: R.choice(['/%s\n', '/%s\n', '?%s\n', '/%s/+1\n', '/%s/0\n', '?%s?-1\n', '/%s/1\n']) % w()
+        prog = ['%dG' % R.randint(1, len(lines)), R.choice(['', '0', 'w', '$'])]
+        for _ in range(R.randint(2, 5)):
+            x = R.random()
+            if x < 0.3:
+                prog.append(srch())
+            elif x < 0.8:
+                op = R.choice(['d', 'd', 'y', 'c', '>', 'gU'])
+                prog.append(R.choice(['', '', '"a']) + op + R.choice([srch(), srch(), 'n', 'N']) + ('X\x1b' if op == 'c' else ''))
+            else:
+                prog.append(R.choice(['p', 'P', '"ap', 'u', 'j', 'k', 'w']))
+        keys = ''.join(prog)
+    elif mode < 0.4:
         # operator x motion x count x register on a small buffer, from a chosen position
         lines = [gen.rand_line(R, kind, 5) for _ in range(R.randint(1, 5))]
         if R.random() < 0.1:
